@@ -1,8 +1,212 @@
+import RichModel.Model.Ansi
 import RichModel.Drv.Proto
-/- Driver handlers for property C19 (stub: filled in when the model is built). -/
-namespace RichModel.Drv.C19
-open RichModel RichModel.Proto
+/-
+Driver handlers for property C19 (ANSI decoder / truecolor encoder / FileProxy).
 
-def handlers : List (String × (List String → String)) := []
+Wire formats
+* string  : space separated decimal code points ("" = empty)
+* flags   : two characters 0/1: intRaises flushRaw   (fields of `Ansi.Cfg`; `sv` is `Variant.fixed`: only
+            the five compared fields of a style are observed, which no `Variant` flag changes)
+* optstr  : `-` (None) or `=` string
+* color   : `-` (None) or `name/type/number/triplet`, number `-`|n, triplet `-`|r.g.b
+* style   : `color|bgcolor|attributes|set_attributes|link`            (link is an optstr)
+* span    : `start~stop~style`   (`E` in place of a style = the `""` style of `Text.join`)
+* text    : `plain^span;span;…`
+* tokens  : `n:` then `P=`string | `S=`string | `O=`string separated by `,`
+* decode  : `n#text#text…!final-style|n<null>!ok` or `…!err:<class>`
+* seg     : `text~-~linkid` | `text~style|n<null>~linkid`, a list is `n:` seg `;` seg …
+* ops     : `W=`string | `F0` | `F1` separated by `,`   (F1: the console's print raised)
+* events  : per op, separated by `/`:  events of that op separated by `,`:
+            `T`text (print of a decoded Text, markup/emoji/highlight off) | `S=`string (print of a str,
+            console defaults) | `R:`class
+-/
+namespace RichModel.Drv.C19
+open RichModel RichModel.Proto RichModel.Ansi
+
+def decFlags (s : String) : Option Ansi.Cfg :=
+  match s.toList.map (· == '1') with
+  | [a, b] => some ⟨Variant.fixed, a, b⟩
+  | _ => none
+
+def decOptS (s : String) : Option (Option (List Char)) :=
+  if s == "-" then some none
+  else if s.startsWith "=" then some (some (decStr (s.drop 1).toString))
+  else none
+
+def encOptS : Option (List Char) → String
+  | none => "-"
+  | some l => "=" ++ encStr l
+
+def decType : String → Option ColorType
+  | "0" => some .default | "1" => some .standard | "2" => some .eightBit
+  | "3" => some .truecolor | "4" => some .windows | _ => none
+
+def decColor (s : String) : Option (Option Color) :=
+  if s == "-" then some none
+  else match s.splitOn "/" with
+  | [n, t, num, trip] => do
+    let ty ← decType t
+    let number ← if num == "-" then some none else num.toNat?.map some
+    let triplet ← if trip == "-" then some none else
+      match trip.splitOn "." with
+      | [r, g, b] => do
+        let r ← r.toNat?
+        let g ← g.toNat?
+        let b ← b.toNat?
+        pure (some (⟨r, g, b⟩ : Triplet))
+      | _ => none
+    pure (some { name := decStr n, type := ty, number := number, triplet := triplet })
+  | _ => none
+
+def encColor : Option Color → String
+  | none => "-"
+  | some c =>
+    encStr c.name ++ "/" ++ toString c.type.toNat ++ "/" ++ encOptNat c.number ++ "/" ++
+      (match c.triplet with
+       | none => "-"
+       | some t => toString t.red ++ "." ++ toString t.green ++ "." ++ toString t.blue)
+
+def encStyle (s : Style) : String :=
+  encColor s.color ++ "|" ++ encColor s.bgcolor ++ "|" ++ toString s.attributes ++ "|" ++
+    toString s.setAttributes ++ "|" ++ encOptS s.link
+
+/-- `color|bgcolor|attrs|set|link|n<null>` → a `Style` record (hash of the fields, empty caches). -/
+def decStyle (s : String) : Option Style :=
+  match s.splitOn "|" with
+  | [c, b, a, sa, l, n] => do
+    let c ← decColor c
+    let b ← decColor b
+    let a ← a.toNat?
+    let sa ← sa.toNat?
+    let l ← decOptS l
+    pure { color := c, bgcolor := b, attributes := a, setAttributes := sa, link := l,
+           hash := ⟨c, b, some a, some sa, l⟩, isNull := n == "n1", styleDef := none }
+  | _ => none
+
+def encSpan (s : Ansi.Span) : String :=
+  toString s.start ++ "~" ++ toString s.stop ++ "~" ++ encStyle s.style
+
+def encJSpan (s : JSpan) : String :=
+  toString s.start ++ "~" ++ toString s.stop ++ "~" ++
+    (match s.style with | none => "E" | some st => encStyle st)
+
+def encRuns (runs : List Run) : String :=
+  encStr (plainOf runs) ++ "^" ++ ";".intercalate ((spansOf runs).map encSpan)
+
+def encJoined (parts : List (List Run)) : String :=
+  let j := joinPieces parts 0
+  encStr j.1 ++ "^" ++ ";".intercalate (j.2.map encJSpan)
+
+def encStyleErr : StyleErr → String
+  | .colorParse => "ColorParseError"
+  | .styleSyntax => "StyleSyntaxError"
+  | .valueError => "ValueError"
+  | .stopIteration => "StopIteration"
+
+def encDecErr : DecErr → String
+  | .valueError => "ValueError"
+  | .style e => encStyleErr e
+
+def encToken : Token → String
+  | .plain s => "P=" ++ encStr s
+  | .sgr s => "S=" ++ encStr s
+  | .osc s => "O=" ++ encStr s
+
+def encFinal (st : Style) : String := encStyle st ++ "|n" ++ encBool st.isNull
+
+def encDecoded (st : Style) (lines : List (List Run)) (err : Option DecErr) : String :=
+  toString lines.length ++ "#" ++ "#".intercalate (lines.map encRuns) ++ "!" ++ encFinal st ++ "!" ++
+    (match err with | none => "ok" | some e => "err:" ++ encDecErr e)
+
+/-- `decodeMany` that also returns the lines decoded before an exception (what a consumer of the
+generator `AnsiDecoder.decode` has already received). -/
+def decodeCollect (cfg : Ansi.Cfg) : Style → List (List Char) → List (List Run) → Style × List (List Run) × Option DecErr
+  | st, [], acc => (st, acc, none)
+  | st, l :: r, acc =>
+    match decodeLine cfg st l with
+    | (st', .error e) => (st', acc, some e)
+    | (st', .ok runs) => decodeCollect cfg st' r (acc ++ [runs])
+
+def decSeg (s : String) : Option Seg :=
+  match s.splitOn "~" with
+  | [t, st, id] =>
+    if st == "-" then some { text := decStr t, style := none, linkId := decStr id }
+    else (decStyle st).map fun x => { text := decStr t, style := some x, linkId := decStr id }
+  | _ => none
+
+def decSegs (s : String) : Option (List Seg) :=
+  match s.splitOn ":" with
+  | [n, body] => if n == "0" then some [] else (body.splitOn ";").mapM decSeg
+  | _ => none
+
+def encEncErr : EncErr → String
+  | .keyError => "err:KeyError"
+  | .color .assertionError => "err:AssertionError"
+  | .color .indexError => "err:IndexError"
+  | .color .valueError => "err:ValueError"
+
+def decOp (s : String) : Option Op :=
+  if s == "F0" then some (.flush false)
+  else if s == "F1" then some (.flush true)
+  else if s.startsWith "W=" then some (.write (decStr (s.drop 2).toString))
+  else none
+
+def encEvent : Event → String
+  | .call (.printText parts) => "T" ++ encJoined parts
+  | .call (.printOne runs) => "T" ++ encRuns runs
+  | .call (.printStr s) => "S=" ++ encStr s
+  | .raised e => "R:" ++ encDecErr e
+
+/-- events per operation -/
+def runPerOp (cfg : Ansi.Cfg) : Proxy → List Op → List (List Event)
+  | _, [] => []
+  | p, op :: h =>
+    let a := p.step cfg op
+    a.2 :: runPerOp cfg a.1 h
+
+def handlers : List (String × (List String → String)) := [
+  ("ansi_tokenize", fun a => match a with
+    | [s] =>
+      let toks := tokenize (decStr s)
+      toString toks.length ++ ":" ++ ",".intercalate (toks.map encToken)
+    | _ => "bad-args"),
+  ("ansi_remove_csi", fun a => match a with
+    | [s] => encStr (removeCsi (decStr s))
+    | _ => "bad-args"),
+  ("ansi_splitlines", fun a => match a with
+    | [s] => encStrList (splitlines (decStr s))
+    | _ => "bad-args"),
+  ("ansi_decode_line", fun a => match a with      -- a fresh decoder, one call of decode_line
+    | [fl, s] => match decFlags fl with
+      | some cfg =>
+        match decodeLine cfg Style.null (decStr s) with
+        | (st, .ok runs) => encDecoded st [runs] none
+        | (st, .error e) => encDecoded st [] (some e)
+      | none => "bad-args"
+    | _ => "bad-args"),
+  ("ansi_decode", fun a => match a with           -- a fresh decoder, list(decode(text))
+    | [fl, s] => match decFlags fl with
+      | some cfg =>
+        let r := decodeCollect cfg Style.null (splitlines (decStr s)) []
+        encDecoded r.1 r.2.1 r.2.2
+      | none => "bad-args"
+    | _ => "bad-args"),
+  ("ansi_encode", fun a => match a with           -- _render_buffer on a truecolor terminal
+    | [segs] => match decSegs segs with
+      | some gs => match encodeSegs gs with
+        | .ok s => "ok:" ++ encStr s
+        | .error e => encEncErr e
+      | none => "unmodelled"
+    | _ => "bad-args"),
+  ("proxy_run", fun a => match a with
+    | [fl, ops] => match decFlags fl with
+      | some cfg =>
+        match (if ops.isEmpty then some [] else (ops.splitOn ",").mapM decOp) with
+        | some h =>
+          "/".intercalate ((runPerOp cfg Proxy.init h).map fun evs => ",".intercalate (evs.map encEvent))
+        | none => "bad-args"
+      | none => "bad-args"
+    | _ => "bad-args")
+]
 
 end RichModel.Drv.C19
